@@ -9,7 +9,7 @@
      _validate_outcome_match     416-519   outcome_match
      _strip_last_applied_annotation 530-550  strip_last_applied
      _validate_match             553-617   tmatch_fuel / tmatch
-     _obj_to_key, _list_to_object 620-627  obj_key / item_key / keyed / list_to_object
+     _obj_to_key, _list_to_object 620-627  obj_key / item_key / keyed / iter_items / list_to_object
      _validate_dict_match        630-668   dict_match (set_keys, map_fields, entry_match)
      _validate_list_match        671-688   list_match
      _validate_set_match         691-728   set_match
@@ -208,33 +208,45 @@ Section Match.
         end
     end.
 
-  (* _obj_to_key *)
-  Definition item_key (obj : list (string * json)) (fields : list json) : option string :=
-    option_map (join "$") (obj_key obj fields).
+  (* _obj_to_key(item, fields): `item.get` is only reached when there is a
+     field, so with an empty field list ANY item has the key "" *)
+  Definition item_key (item : json) (fields : list json) : option string :=
+    match fields with
+    | [] => Some ""
+    | _ => match item with
+           | JMap obj => option_map (join "$") (obj_key obj fields)
+           | _ => None                           (* AttributeError: no .get *)
+           end
+    end.
 
-  (* the dict comprehension of _list_to_object over a list: items must be
-     dicts (AttributeError otherwise); later items replace earlier ones with
-     the same key *)
+  (* the dict comprehension of _list_to_object: later items replace earlier
+     ones with the same key *)
   Fixpoint keyed (fields : list json) (l : list json) (acc : list (string * json))
     : option (list (string * json)) :=
     match l with
     | [] => Some acc
-    | JMap obj :: r =>
-        match item_key obj fields with
-        | Some k => keyed fields r (set_key k (JMap obj) acc)
+    | it :: r =>
+        match item_key it fields with
+        | Some k => keyed fields r (set_key k it acc)
         | None => None
         end
-    | _ :: _ => None
     end.
 
-  (* _list_to_object on any value: "" and {} iterate to nothing; a non-empty
-     str / dict yields str items (no .get); other scalars are not iterable *)
-  Definition list_to_object (fields : list json) (v : json) : option (list (string * json)) :=
+  (* what iterating the value yields: list items, the characters of a str,
+     the keys of a dict; None = not iterable *)
+  Definition iter_items (v : json) : option (list json) :=
     match v with
-    | JList l => keyed fields l []
-    | JStr s => if String.eqb s "" then Some [] else None
-    | JMap [] => Some []
+    | JList l => Some l
+    | JStr s => Some (map JStr (utf8_chars s))
+    | JMap m => Some (map JStr (map fst m))
     | _ => None
+    end.
+
+  (* _list_to_object on any value *)
+  Definition list_to_object (fields : list json) (v : json) : option (list (string * json)) :=
+    match iter_items v with
+    | Some items => keyed fields items []
+    | None => None
     end.
 
   Section Levels.
